@@ -120,23 +120,22 @@ pub proof fn lemma_remove_block(t: &Tour, s: int, e: int)
     ensures !all_depots(&t.network, t.mid(s, e + 1)), all_in_net(&t.network, t.mid(s, e + 1)),
 {
     lemma_cuts(t, s, e + 1);
-    let k: int = if s == 0 { 1 } else { s };
+    let k: int = if s == 0 && !t.is_dummy { 1 } else { s };
     lemma_tour_kinds(t, k);
     let m = t.mid(s, e + 1);
     assert(m[k - s] == t.nodes@[k]);
     assert(t.network.sp_node(m[k - s]).sp_is_activity());
 }
 /// C01: what is left after an accepted removal is a well-formed tour
-pub proof fn lemma_remove_wf(t: &Tour, r: &Tour, s: int, e: int)
+pub proof fn lemma_remove_wf(t: &Tour, tn: Seq<NodeIdx>, s: int, e: int)
     requires t.wf(), 0 <= s <= e < t.len(), t.removable(s, e), tour_len_ok(t.nodes@),
-        r.nodes@ == t.rest(s, e + 1), r.is_dummy == t.is_dummy, r.network == t.network,
-        r.nodes@.len() > (if t.is_dummy { 0int } else { 2int }),
-    ensures r.wf(), t.is_dummy || (1 <= s && e + 1 <= t.len() - 1),
+        tn == t.rest(s, e + 1), tn.len() > (if t.is_dummy { 0int } else { 2int }),
+    ensures tour_wf(&t.network, tn, t.is_dummy), t.is_dummy || (1 <= s && e + 1 <= t.len() - 1),
 {
     let net = &t.network;
     let e1 = e + 1;
     lemma_cuts(t, s, e1);
-    let tn = r.nodes@;
+    reveal(Tour::pre); reveal(Tour::suf);
     assert(t.is_dummy || (s >= 1 && e1 <= t.len() - 1));
     assert forall|i: int| 0 <= i < tn.len() - 1 implies #[trigger] net.reach(tn[i], tn[i + 1]) by {
         if i < s - 1 { assert(net.reach(t.nodes@[i], t.nodes@[i + 1])); }
@@ -155,7 +154,6 @@ pub proof fn lemma_remove_wf(t: &Tour, r: &Tour, s: int, e: int)
         lemma_tour_kinds(t, 0); lemma_tour_kinds(t, t.len() - 1);
     }
 }
-
 /// what the two `.sum()` chains over the removed block need: the quantified sum lemmas for the block
 /// and the validity of every node of the tour (closure preconditions)
 pub proof fn lemma_remove_sums_visible(t: &Tour, s: int, e1: int)
